@@ -12,7 +12,9 @@
 From Coq Require Import List NArith ZArith Bool.
 Import ListNotations.
 Require Import MV.C11.Model MV.C11.Spec MV.C11.Exec MV.C11.ProofsFraming MV.C11.ProofsInv
-        MV.C11.ProofsState MV.C11.ProofsCount MV.C11.ProofsOrder MV.C11.ProofsMain.
+        MV.C11.ProofsState MV.C11.ProofsCount MV.C11.ProofsOrder MV.C11.ProofsWire MV.C11.ProofsReflect
+        MV.C11.ProofsStream MV.C11.ProofsMain.
+From Coq Require Import Permutation.
 Open Scope N_scope.
 
 Theorem C11_frame_roundtrip : forall bodies, split_frames (concat (map enc bodies)) = (bodies, []).
@@ -78,6 +80,41 @@ Theorem C11_interrupted_refuted_before_fix :
     lookup 2 (clients sf) = Some c /\ torn c = true.
 Proof. exact interrupted_refuted_before_fix. Qed.
 
+Theorem C11_zero_buffer_refuted_before_fix : forall s metas frames ws, metas <> [] \/ frames <> [] ->
+  step_wake before_zero (Some 0) s metas frames ws = None.
+Proof. exact zero_refuted_before_fix. Qed.
+
+Theorem C11_zero_buffer_is_one_after_fix : lim_of fixed (Some 0) = 1.
+Proof. exact zero_after_fix. Qed.
+
+(* the wire format: the Spec decoder inverts the Model encoders *)
+Theorem C11_fields_roundtrip : forall l, Forall ok_field l -> fields (enc_fields l) = Some l.
+Proof. exact fields_roundtrip. Qed.
+
+Theorem C11_metadata_roundtrip : forall name m,
+  decode_event (meta_body name m) = Some (DMeta (mkDMeta name (m_type m) (m_unit m) (m_desc m))).
+Proof. exact meta_roundtrip. Qed.
+
+(* name, labels (as collected into the BTreeMap), operation kind and value intact, for every
+   name, label list, timestamp and value (doubles as 64-bit patterns) *)
+Theorem C11_metric_roundtrip : forall i secs nanos, op_ok (mi_op i) ->
+  split_frames (enc_metric i secs nanos) = ([metric_body i secs nanos], []) /\
+  decode_event (metric_body i secs nanos) =
+  Some (DMetric (mkDMetric (mi_name i) (btree_of (mi_labels i)) (fst (op_num (mi_op i))) (snd (op_num (mi_op i))))).
+Proof. exact metric_frame_roundtrip. Qed.
+
+(* reflection of the stream clause: a stream with the shape established by C11_stream_integrity
+   and C11_prefix_metadata_then_metrics_in_order passes the boolean check of Spec.v *)
+Theorem C11_stream_log_ok_reflect : forall x ML KL ML1 KL1 s,
+  s = concat (map enc (map mbody ML1 ++ map kbody KL1)) ->
+  Forall item_ok KL1 ->
+  Subseq ML1 ML -> Subseq KL1 KL ->
+  Permutation (map dm ML) (x_log_metas x) ->
+  x_metric_bodies x = map kbody KL ->
+  (x_stay x && x_full x = true -> ML1 = ML /\ KL1 = KL) ->
+  stream_log_ok x s = true.
+Proof. exact stream_log_ok_reflect. Qed.
+
 Theorem C11_spec_ok_sound : forall c o, spec_ok c o = true ->
   o_served o = true /\ o_quiet o = true /\ Forall obs_good (o_obs o) /\
   streams_ok c (c_clients c) (o_streams o) = true.
@@ -88,8 +125,13 @@ Theorem C11_stream_ok_whole_frames : forall x s, stream_ok x s = true -> x_stay 
 Proof. exact stream_ok_whole. Qed.
 
 (* full statement not proved: forall c, <the log of c is a run of the model that ends with every
-   staying client flushed, and the drained frames decode to the harness's emissions> ->
-   spec_ok c (run_case c) = true.  Proved: the start-up and counter clauses. *)
+   staying client connected and flushed, and harness_ok c = true> -> spec_ok c (run_case c) = true.
+   Proved: the start-up and counter clauses (below); the stream clause as a reflection lemma
+   (C11_stream_log_ok_reflect) over the Prop-level shape given by C11_stream_integrity and
+   C11_prefix_metadata_then_metrics_in_order.  Missing: the bookkeeping that identifies
+   [ms ++ wake_frames evs2] of the model with the lists ML / KL and expect_of's log view
+   (log_metas = the model's metadata map at the accept, up to permutation), and the streams of
+   clients the model has removed. *)
 Theorem C11_spec_ok_on_model_partial : forall c,
   o_served (run_case c) = true /\ obs_ok (o_obs (run_case c)) = true.
 Proof. exact spec_ok_on_model_partial. Qed.
